@@ -58,3 +58,18 @@ Definition check_c19l (c : lenarg * option nat) : bool :=
   | LenPanic, None => true
   | _, _ => false
   end.
+
+(* ---- C20 ---- *)
+From Plush Require Import model.Text.
+Definition bytes_eqb := beq.
+(* truncate: (s, size, trail, observed) *)
+Definition check_c20t (c : bytes * Z * bytes * bytes) : bool :=
+  let '(s, size, trail, obs) := c in beq (truncate s size trail) obs.
+(* htmlEscape: (s, observed) *)
+Definition check_c20h (c : bytes * bytes) : bool := beq (html_escape (fst c)) (snd c).
+(* jsEscape: (s, runes of s that unicode.IsPrint accepts, observed) *)
+Definition check_c20j (c : bytes * list N * bytes) : bool :=
+  let '(s, pr, obs) := c in
+  beq (js_escape (fun r => existsb (N.eqb r) pr) s) obs.
+(* toJSON: (value, observed) *)
+Definition check_c20json (c : json * bytes) : bool := beq (to_json (fst c)) (snd c).
